@@ -54,6 +54,27 @@ def _cases(rng, n):
         yield r, mu, S, mu[0] + h * math.sqrt(vx), mu[1] + k * math.sqrt(vy), h, k
 
 
+def _far_tail_cases(rng, n):
+    """evaluation points tens to thousands of standard deviations from the mean, in all four quadrants: the exact value is a marginal"""
+    for _ in range(n):
+        r = rng.choice(R_VALUES) * rng.choice([1, -1])
+        vx, vy = 10 ** rng.uniform(-6, 2), 10 ** rng.uniform(-6, 2)
+        mu = [rng.uniform(-3, 3), rng.uniform(-3, 3)]
+        S = [[vx, r * math.sqrt(vx * vy)], [r * math.sqrt(vx * vy), vy]]
+        big = rng.choice([45.0, 150.0, 250.0, 1000.0, 1e5])
+        h = rng.choice([big, -big, rng.uniform(-3, 3)])
+        k = rng.choice([big, -big]) if abs(h) < 40 else rng.choice([big, -big, rng.uniform(-3, 3)])
+        if h <= -40 or k <= -40:
+            want = 0.0
+        elif h >= 40 and k >= 40:
+            want = 1.0
+        elif h >= 40:
+            want = 0.5 * math.erfc(-k / math.sqrt(2))
+        else:
+            want = 0.5 * math.erfc(-h / math.sqrt(2))
+        yield r, mu, S, mu[0] + h * math.sqrt(vx), mu[1] + k * math.sqrt(vy), h, k, want
+
+
 def _sig(r):
     return "bvn:%s" % ("high-correlation" if abs(r) >= 0.925 else "low-correlation")
 
@@ -97,6 +118,16 @@ def _standin(rep, tier, seed, only_search=False):
             if got == got and abs(got - ref2) > 1e-7:
                 rep.violation("gaussian kernel = %r but an independent integral of the density gives %r at r=%s" % (got, ref2, r), _sig(r) + ":accuracy",
                               {"input": inp, "observed": got, "expected": ref2, "call": "persim.images_kernels.gaussian([x],[y],mu=mu,sigma=sigma)"})
+    for (r, mu, S, x, y, h, k, want) in _far_tail_cases(rng, 300 if tier == "quick" else 8000):
+        got = float(_gauss([x], [y], mu, S)[0])
+        evals += 1
+        distinct.add(("far", round(r, 3), h > 0, k > 0))
+        if got != got or abs(got - want) > 1e-7:
+            rep.violation("far tail: gaussian kernel = %r at (h, k) = (%r, %r) standard deviations from the mean with r=%s; the CDF there is %r" % (got, h, k, r, want), _sig(r) + ":far-tail",
+                          {"input": {"x": x, "y": y, "mu": mu, "sigma": S, "r": r}, "observed": repr(got), "expected": want, "call": "persim.images_kernels.gaussian([x],[y],mu=mu,sigma=sigma)"})
+            if only_search:
+                return
+            break
     if only_search:
         return
     # shape laws: monotone in each argument, rectangle mass >= 0, tails
